@@ -5,8 +5,8 @@ import itertools
 from traits.adaptation.api import (AdaptationError, AdaptationManager,
                                    get_global_adaptation_manager,
                                    set_global_adaptation_manager)
-from traits.api import (AdaptsTo, BaseInstance, HasTraits, Instance,
-                        PrototypedFrom, Supports, TraitError)
+from traits.api import (AdaptsTo, BaseInstance, Either, HasTraits, Instance,
+                        List, PrototypedFrom, Str, Supports, TraitError)
 
 LEVEL = "exploration"
 RULE = ("per type universe: every sequence (= multiset in every registration "
@@ -340,6 +340,9 @@ def trait_checks(ctx, uni, offers, src_type, target):
             ada = AdaptsTo(target)
             ins = Instance(target, adapt="yes")
             bas = BaseInstance(target, adapt="yes")
+            cmp1 = Either(Str, Supports(target))
+            cmp2 = Either(Supports(target), Str)
+            many = List(Supports(target))
 
         class Holder(HasTraits):
             proto = Instance(H, ())
@@ -391,6 +394,40 @@ def trait_checks(ctx, uni, offers, src_type, target):
                 if name == "sup" and h.sup_ is not obj:
                     ctx.violation("C17:trait-shadow:sup", "Supports shadow "
                                   "is not the original", **case)
+        # the same traits as alternatives of a compound trait and as list
+        # items; values that are neither strings nor adaptable are refused
+        for name in ("cmp1", "cmp2", "many"):
+            for val in (obj, 5, True, 2 ** 70):
+                ctx.tr()
+                h = H()
+                try:
+                    setattr(h, name, [val] if name == "many" else val)
+                    acc = True
+                except TraitError:
+                    acc = False
+                except Exception as e:
+                    ctx.violation("C17:trait-raises:%s" % name,
+                                  "assignment raised %r" % (e,), **case)
+                    continue
+                exp = val is obj and want is not None
+                if acc != exp:
+                    ctx.violation(
+                        "C17:trait-verdict:%s" % name,
+                        "%s %s %r but adapt() %s" % (
+                            name, "accepted" if acc else "rejected",
+                            val if val is not obj else "the source object",
+                            "succeeds" if exp else "finds no adapter"),
+                        **case)
+                    continue
+                ctx.outcome("trait-agrees")
+                if acc:
+                    stored = getattr(h, name)
+                    stored = stored[0] if name == "many" else stored
+                    if type(stored) is not type(want) or \
+                            chain_of(stored, obj)[0] != chain_of(want, obj)[0]:
+                        ctx.violation("C17:trait-stored:%s" % name,
+                                      "stored %r, adapt() gives %r"
+                                      % (stored, want), **case)
         # AdaptsTo reached through PrototypedFrom: the deferring object
         # stores the original value, as the trait itself would
         if want is not None:
